@@ -32,9 +32,13 @@ def doc_cases(ctx, bases):
     sites = {}
     for name, text in bases.items():
         root = F.parse(text)
-        small = name != 'full'
+        small = name not in ('full', 'scopes')
         ss = F.enumerate_sites(root, token_cap=None if small else 6)
         sites[name] = ss
+        # references re-pointed at a name defined only in another scope: all of them, always
+        for f in F.crossref_sites(root):
+            cases.append({'base': name, 'faults': [f]})
+            stats['crossref'] = stats.get('crossref', 0) + 1
         if small:
             for f in ss:
                 cases.append({'base': name, 'faults': [f]})
@@ -50,7 +54,7 @@ def doc_cases(ctx, bases):
                     fs = by[lab]
                     pick.extend(rng.sample(fs, min(2, len(fs))))
                 rest = [f for f in ss if f not in pick]
-                pick.extend(rng.sample(rest, min(150, len(rest))))
+                pick.extend(rng.sample(rest, min(150 if name == 'full' else 40, len(rest))))
             else:
                 pick = ss
             for f in pick:
@@ -71,7 +75,7 @@ def doc_cases(ctx, bases):
         n = len(data)
         # every byte position of the small bases (quick: the smallest one; all of them: thorough),
         # every position in or next to a multi-byte character of every base, plus a sample
-        exhaustive = name != 'full' and (not quick or name == 'small_tex')
+        exhaustive = name not in ('full', 'scopes') and (not quick or name == 'small_tex')
         if exhaustive:
             stats['truncations_exhaustive_bases'].append(name)
             positions = set(range(n + 1))
